@@ -190,7 +190,8 @@ def part_spelling(sh, res):
 
 
 TOKENS = [' SELECT ', ' WHERE ', ' ORDER BY ', ' FROM a', ' JOIN ', ' LIMIT 1', 'TOP 1 ', 'DISTINCT ', ' EXCEPT ', ' with (header)', ' AS x', '*', '=', '==', '#', '//', ',', ';', 'a1', 'b2', 'a.zz', 'NR',
-          '(', ']', 'UNNEST(', 'COUNT(*)', '___RBQL_STRING_LITERAL0___', '___RBQL_STRING_LITERAL1___', 'OTHERQ', 'SAMEQ', '\\', '\t', ' UPDATE ', ' GROUP BY ', '$&', '$$', "$'", '$`', '${a1}']
+          '(', ']', 'UNNEST(', 'COUNT(*)', '___RBQL_STRING_LITERAL0___', '___RBQL_STRING_LITERAL1___', 'OTHERQ', 'SAMEQ', '\\', '\t', ' UPDATE ', ' GROUP BY ', '$&', '$$', "$'", '$`', '${a1}',
+          '\x0b#', '\x0c', '\x1c', '\x85', '\u2028#']       # characters that str.splitlines() (but not split('\\n')) treats as line ends, two of them followed by the comment sign
 
 
 def lit_raw(value, quote):
